@@ -1097,12 +1097,33 @@ pub fn c10(tier: &str) -> Vec<Family> {
             sc.push(scn(format!("series{}/partition{}", si, pi), &spec, cmds));
         }
     }
-    vec![Family::new(
+    // A keyed series cancelled by an earlier same-time event of the same origin
+    // at one of its occurrence times: that occurrence and all later ones must
+    // not run, whatever the partition of the horizon.
+    let a2 = NodeSpec::new("A", 2).script(1, vec![Op::ReadTime]).script(5, vec![Op::Cancel { slot: 0 }]);
+    let spec2 = Arc::new(BenchSpec::new(vec![a2]));
+    let mut sc_c = vec![];
+    for ct in 1..=3i64 {
+        for (pi, part) in partitions.iter().enumerate().filter(|(_, p)| !p.iter().any(|c| matches!(c, Cancel { .. }))) {
+            let mut cmds = vec![
+                Sched { node: 0, kind: SKind::Once, when: When::Abs(ct), tag: 5, val: 70, slot: 9 },
+                Sched { node: 0, kind: SKind::KeyedPeriodic(1), when: When::Abs(1), tag: 1, val: 71, slot: 0 },
+            ];
+            cmds.extend(part.clone());
+            cmds.push(StepUntil(When::Abs(5)));
+            sc_c.push(scn(format!("cancel_at{}/partition{}", ct, pi), &spec2, cmds));
+        }
+    }
+    let tags_c10: &'static [&'static str] = &["sched_missed", "sched_dup", "sched_wrong_time", "step_time", "sched_overdue", "handler_time", "cmd_time", "cancel_ignored"];
+    let fam_c = Family::new("cancelled_at_occurrence", tags_c10, sc_c).cap(cap);
+    let mut out = vec![Family::new(
         "periodic_partitions",
         &["sched_missed", "sched_dup", "sched_wrong_time", "step_time", "sched_overdue", "handler_time", "cmd_time"],
         sc,
     )
-    .cap(cap)]
+    .cap(cap)];
+    out.push(fam_c);
+    out
 }
 
 // ---------------------------------------------------------------------------
@@ -1234,7 +1255,7 @@ pub fn c11(tier: &str) -> Vec<Family> {
         let mut sp = (*c11_spec(0)).clone();
         let mut answers = vec![None; k];
         answers.push(Some(5_000_000));
-        sp.clock = ClockSpec { answers };
+        sp.clock = ClockSpec { answers, schedules: vec![] };
         sp.tolerance_ns = Some(1_000_000);
         let sp = Arc::new(sp);
         for fo in [vec![], vec![Cmd::Step], vec![Cmd::StepUntil(When::Rel(1)), pe(0, 1, 1)], vec![pe(0, 1, 1), Cmd::Step]] {
@@ -1323,6 +1344,39 @@ pub fn c14(tier: &str) -> Vec<Family> {
             sc.push(scn(format!("partial_drain/combo{}/v{}/take1", ci, v), &spec, vec![pe(0, 1, v)]));
             sc.push(scn(format!("partial_drain/combo{}/v{}/take0", ci, v), &spec, vec![pe(0, 2, v)]));
         }
+    }
+    // Successive queries whose number of accepting repliers shrinks and then
+    // grows beyond the earlier maximum (the per-replier sub-task set is re-sized).
+    {
+        let conns = vec![to(1), to(2), tom(3, Mode::FilterGe(1)), tom(4, Mode::FilterGe(2)), tom(5, Mode::FilterGe(3))];
+        for seq in [[1i64, 0, 2], [2, 0, 3], [1, 0, 3], [0, 3, 0], [3, 0, 3]] {
+            let ops: Vec<Op> = seq.iter().map(|v| Op::Query { port: 0, tag: 4, val: Val::C(*v) }).collect();
+            let a = NodeSpec::new("A", 1).script(1, ops).req(conns.clone());
+            let mut nodes = vec![a];
+            for i in 0..5 {
+                nodes.push(NodeSpec::new(&format!("R{}", i + 1), 1));
+            }
+            let mut spec = BenchSpec::new(nodes);
+            spec.qsrcs = vec![conns.clone()];
+            let spec = Arc::new(spec);
+            sc.push(scn(format!("resize/{:?}", seq), &spec, vec![pe(0, 1, 0)]));
+            let cmds: Vec<Cmd> = seq.iter().map(|v| Cmd::ProcQSrc { src: 0, tag: 4, val: *v }).collect();
+            sc.push(scn(format!("resize_qsource/{:?}", seq), &spec, cmds));
+        }
+    }
+    // A query source / requestor with more connections to ONE replier model
+    // than its mailbox holds (the sub-sends have to wait for space in turn).
+    for c in [1usize, 2] {
+        let conns: Vec<Conn> = (0..c + 3).map(|k| tom(1, Mode::Map(k as i64))).collect();
+        let a = NodeSpec::new("A", 1).script(1, vec![query(0, 4)]).req(conns.clone());
+        let r = NodeSpec::new("R", c);
+        let mut spec = BenchSpec::new(vec![a, r]);
+        spec.qsrcs = vec![conns.clone()];
+        spec.srcs = vec![conns];
+        let spec = Arc::new(spec);
+        sc.push(scn(format!("one_replier_many_connections/cap{}/requestor", c), &spec, vec![pe(0, 1, 0)]));
+        sc.push(scn(format!("one_replier_many_connections/cap{}/qsource", c), &spec, vec![Cmd::ProcQSrc { src: 0, tag: 4, val: 0 }]));
+        sc.push(scn(format!("one_replier_many_connections/cap{}/esource", c), &spec, vec![Cmd::ProcSrc { src: 0, tag: 4, val: 0 }]));
     }
     // Single-replier requestors (plain, mapped, filtered), also towards a
     // replier that is busy or whose mailbox is full.
@@ -1520,7 +1574,31 @@ pub fn c17(tier: &str) -> Vec<Family> {
         sc.push(scn(format!("emit{}", k), &spec, vec![pe(0, 1, 0)]));
         sc.push(scn(format!("emit{}x2", k), &spec, vec![pe(0, 1, 0), pe(0, 1, 100)]));
     }
-    vec![Family::new("model_to_sink", &["sink_order", "sink_content"], sc).cap(cap)]
+    // Overflowing buffers (one writer), and two models writing to one small buffer.
+    for c in [1usize, 2, 3] {
+        let ops: Vec<Op> = (0..c + 3).map(|j| sendp(0, 2, j as i64)).collect();
+        let a = NodeSpec::new("A", 2).script(1, ops).out(vec![Conn::Buf { sink: 0, mode: Mode::Plain }]);
+        let mut spec = BenchSpec::new(vec![a]);
+        spec.bufs = vec![c];
+        sc.push(scn(format!("overflow/cap{}", c), &Arc::new(spec), vec![pe(0, 1, 0), pe(0, 1, 100)]));
+        let mk = |n: &str, base: i64| {
+            NodeSpec::new(n, 2)
+                .script(1, vec![sendp(0, 2, base), sendp(0, 2, base + 1), sendp(0, 2, base + 2)])
+                .out(vec![Conn::Buf { sink: 0, mode: Mode::Plain }])
+        };
+        let mut spec = BenchSpec::new(vec![mk("P", 0), mk("Q", 100)]);
+        spec.bufs = vec![c];
+        sc.push(scn(
+            format!("two_writers/cap{}", c),
+            &Arc::new(spec),
+            vec![
+                Cmd::Sched { node: 0, kind: SKind::Once, when: When::Rel(1), tag: 1, val: 0, slot: 0 },
+                Cmd::Sched { node: 1, kind: SKind::Once, when: When::Rel(1), tag: 1, val: 0, slot: 0 },
+                Cmd::Step,
+            ],
+        ));
+    }
+    vec![Family::new("model_to_sink", &["sink_order", "sink_content", "sink_capacity"], sc).cap(cap)]
 }
 
 // ---------------------------------------------------------------------------
@@ -1538,6 +1616,11 @@ pub const TAGS_SYNC: &[&str] = &[
     "oos_code_ran",
     "error_class",
     "term_result",
+];
+
+pub const TAGS_SYNC_AND_TIME: &[&str] = &[
+    "sync_init", "sync_monotone", "sync_spurious", "sync_before_done", "sync_extra", "sync_missing", "step_time",
+    "sched_validation", "pending_not_future", "sched_missed", "sched_wrong_time", "time_backwards", "cmd_time",
 ];
 
 pub fn c18(tier: &str) -> Vec<Family> {
@@ -1561,7 +1644,7 @@ pub fn c18(tier: &str) -> Vec<Family> {
     let depth = if tier == "quick" { 4 } else { 5 };
     let sequences = seqs(&alpha, depth);
     // Clock scripts: position of a lag among the first calls, tolerance or not.
-    let mut clocks: Vec<(String, ClockSpec, Option<u64>)> = vec![("sync".into(), ClockSpec { answers: vec![] }, None)];
+    let mut clocks: Vec<(String, ClockSpec, Option<u64>)> = vec![("sync".into(), ClockSpec { answers: vec![], schedules: vec![] }, None)];
     for pos in 0..4usize {
         for (lag, tol, name) in [
             (5_000u64, Some(1_000u64), "above"),
@@ -1571,7 +1654,7 @@ pub fn c18(tier: &str) -> Vec<Family> {
         ] {
             let mut answers = vec![None; pos];
             answers.push(Some(lag));
-            clocks.push((format!("lag_{}@{}", name, pos), ClockSpec { answers }, tol));
+            clocks.push((format!("lag_{}@{}", name, pos), ClockSpec { answers, schedules: vec![] }, tol));
         }
     }
     let mut sc = vec![];
@@ -1588,7 +1671,24 @@ pub fn c18(tier: &str) -> Vec<Family> {
             sc.push(scn(format!("{}/seq#{}", cname, i), &sp, cmds.clone()));
         }
     }
-    vec![Family::new("clock_gating", TAGS_SYNC, sc).cap(5_000)]
+    // A clock that schedules an event through a Scheduler handle while it is
+    // being synchronised (k-th call), for a deadline before, at and after the
+    // time it is synchronising on.
+    let mut sc2 = vec![];
+    for k in 1..=3usize {
+        for at in 1..=4i64 {
+            let mut sp = base.clone();
+            sp.clock = ClockSpec { answers: vec![], schedules: vec![(k, at, 1)] };
+            let sp = Arc::new(sp);
+            for (i, cmds) in sequences.iter().enumerate().filter(|(_, c)| c.len() <= 3) {
+                sc2.push(scn(format!("scheduling_clock/call{}/at{}/seq#{}", k, at, i), &sp, cmds.clone()));
+            }
+        }
+    }
+    vec![
+        Family::new("clock_gating", TAGS_SYNC, sc).cap(5_000),
+        Family::new("scheduling_clock", TAGS_SYNC_AND_TIME, sc2).cap(5_000),
+    ]
 }
 
 // ---------------------------------------------------------------------------
